@@ -43,6 +43,7 @@ HOSTILE = ['\x00', 'a\x08b', '\ud800', '\ufffe', ']]>', '<x>&', 'P99999999999Y',
            'abc', '', ' ', '1e999', '-1e999', 'NaN', 'INF', '-', '+', '0x10', '9' * 400, '2020-13-01', '2020-02-30', '2020-02-30T00:00:00',
            '24:00:00', '25:61:61', 'P', 'PT', 'P1Y', '-P', '!!!', 'AA=', '%%%', '１２', 'true ', 'TRUE', 'null', 'None', '{}', '[]', 'é' * 50,
            '0000-00-00', '12:00', '1.2.3', '1,5', '--1', '00000000-0000-0000-0000-00000000000', 'zzzzzzzz-zzzz-zzzz-zzzz-zzzzzzzzzzzz',
+           '2020-02-30+01:00', '2020-02-30Z', '2020-13-01Z', '2020-00-10-05:00', '2021-02-29T00:00:00Z', '2020-01-01T25:00:00Z', '12:60:00Z', '24:00:01+01:00',
            '2020-01-01T00:00:00+99:99', '2020-01-01T00:00:00.1234567890123Z', 'PT1.5.5S', ' ', 'a' * 5000]
 
 
@@ -82,6 +83,122 @@ def inheritance_universe():
     return ir
 
 
+SMALL_LIMIT = 160
+
+
+def all_kinds_universe():
+    """one member (and one attribute) of every primitive kind: the text of each is swept with every hostile literal"""
+    ns = 'urn:vf:c10k'
+    fields = [['k%d' % i, {'prim': k, 'facets': {}}] for i, k in enumerate(sorted(gen.PRIMS))]
+    attrs = [['a%d' % i, {'attr': {'prim': k, 'facets': {}}}] for i, k in enumerate(sorted(gen.PRIMS)) if k != 'ByteArray']
+    KK = {'name': 'KK', 'ns': ns, 'base': None, 'has_xmldata': False, 'fields': fields + attrs}
+    KE = {'name': 'KE', 'ns': ns, 'base': None, 'has_xmldata': False, 'fields': fields}
+    return {'uid': 9200, 'tns': ns, 'types': [KK, KE], 'services': [{'name': 'S', 'methods': [
+        {'name': 'mk', 'args': [['a', {'ref': 'KK'}]], 'returns': [], 'style': 'wrapped'},
+        {'name': 'me', 'args': [['a', {'ref': 'KE'}], ['l', {'array': {'ref': 'KE'}}]], 'returns': [], 'style': 'wrapped'}]}]}
+
+
+def near_literals(text):
+    """literals one edit away from a valid one"""
+    import re
+    out = []
+    for i in range(min(len(text), 40)):
+        out.append(text[:i] + 'x' + text[i + 1:])
+        out.append(text[:i] + text[i + 1:])
+    out += [text + z for z in ('Z', '+01:00', '-14:00', '+99:99', 'junk', ' ', '\n', '.5', '0' * 400)]
+    out += ['x' + text, ' ' + text, '-' + text, '+' + text, text * 2]
+    out.append(re.sub(r'\d+', '9' * 4400, text, count=1))
+    m = list(re.finditer(r'\d+', text))
+    for mm in m[:8]:
+        out.append(text[:mm.start()] + '99' + text[mm.end():])
+        out.append(text[:mm.start()] + '00' + text[mm.end():])
+        out.append(text[:mm.start()] + '9' * 4400 + text[mm.end():])
+        out.append(text[:mm.start()] + '99' + text[mm.end():] + 'Z')
+        out.append(text[:mm.start()] + '00' + text[mm.end():] + '+01:00')
+    return out
+
+
+def leaf_sweep(R, T, rng, data, struct, repro, tier, drivers):
+    """every leaf of a valid request x (the hostile literals + the literals one edit away from the valid one)"""
+    kind = T.kind
+    frac = 1.0 if tier == 'thorough' else 0.34
+    n = 0
+    if kind in ('xml', 'soap11', 'soap12'):
+        els = [e for e in struct.iter() if isinstance(e.tag, str)]
+        sites = [('text', i, None) for i, e in enumerate(els) if len(e) == 0 and e.text] + \
+                [('attr', i, k) for i, e in enumerate(els) for k in e.attrib if 'XMLSchema-instance' not in k]
+        for how, i, k in sites:
+            cur = els[i].text if how == 'text' else els[i].get(k)
+            for lit in HOSTILE + near_literals(cur):
+                if rng.random() > frac:
+                    continue
+                d = copy.deepcopy(struct)
+                e = [x for x in d.iter() if isinstance(x.tag, str)][i]
+                try:
+                    if how == 'text':
+                        e.text = lit
+                    else:
+                        e.set(k, lit)
+                    m = etree.tostring(d)
+                except (ValueError, TypeError):
+                    continue
+                process(R, T, m, drivers[n % len(drivers)], 'sweep:' + how, repro)
+                n += 1
+    elif kind == 'httprpc':
+        path, pairs = data
+        for i, (k, v) in enumerate(pairs):
+            for lit in HOSTILE + near_literals(v):
+                if rng.random() > frac:
+                    continue
+                ps = list(pairs)
+                ps[i] = (k, lit)
+                from urllib.parse import quote
+                qs = '&'.join('%s=%s' % (quote(a.encode('utf8', 'surrogatepass'), safe=''), quote(b.encode('utf8', 'surrogatepass'), safe=''))
+                              for a, b in ps)
+                process(R, T, b'', 'wsgi', 'sweep:pair', repro, path=path, qs=qs)
+                n += 1
+            # ... and the key: every index written every hostile way, an index where there is none
+            import re
+            keys = set()
+            for idx in ('9' * 4400, '-1', 'x', '', '٣', '1e3', '99999999999', '0x1', ' 0', '0]['):
+                keys.add(re.sub(r'\[\d+\]', lambda m: '[%s]' % idx, k, count=1))
+                keys.add(re.sub(r'\[\d+\]$', lambda m: '[%s]' % idx, k))
+                keys.add(k + '[%s]' % idx)
+                keys.add(k.replace('.', '[%s].' % idx, 1))
+            for k2 in sorted(keys - {k}):
+                ps = list(pairs)
+                ps[i] = (k2, v)
+                from urllib.parse import quote
+                qs = '&'.join('%s=%s' % (quote(a.encode('utf8', 'surrogatepass'), safe=''), quote(b.encode('utf8', 'surrogatepass'), safe=''))
+                              for a, b in ps)
+                process(R, T, b'', 'wsgi', 'sweep:key', repro, path=path, qs=qs)
+                n += 1
+    else:
+        from checks.c04 import positions, set_path
+        (mkey, body), = struct.items() if isinstance(struct, dict) else ((None, struct),)
+        for pth in positions(body):
+            cur = body
+            try:
+                for kk in pth:
+                    cur = cur[kk]
+            except (KeyError, IndexError, TypeError):
+                continue
+            if isinstance(cur, (dict, list)):
+                continue
+            base = cur if isinstance(cur, str) else None
+            for lit in HOSTILE + (near_literals(base) if base else []):
+                if rng.random() > frac:
+                    continue
+                try:
+                    m = set_path(body, pth, lit)
+                    blob = T.codec.dumps({mkey: m} if mkey is not None else m)
+                except Exception:
+                    continue
+                process(R, T, blob, drivers[n % len(drivers)], 'sweep:value', repro)
+                n += 1
+    R.count('leaf_sweep_inputs', n)
+
+
 class Target(object):
     def __init__(self, ir, kind, validator, rng, outkind=None):
         from spyne.server import ServerBase
@@ -118,6 +235,13 @@ class Target(object):
                 self.server = ServerBase(app)
                 self.codec = refdict.Codec(ir, self.conf)
             self.wsgi = WsgiApplication(app)
+
+    def small(self):
+        """the same application behind a transport that accepts only short requests, reading them 7 bytes at a time"""
+        if getattr(self, '_small', None) is None:
+            from spyne.server.wsgi import WsgiApplication
+            self._small = WsgiApplication(self.wsgi.app, max_content_length=SMALL_LIMIT, block_length=7)
+        return self._small
 
     def valid_request(self, rng, md):
         """(bytes body or query, structure for mutation)"""
@@ -215,6 +339,10 @@ def _on_vtalrm(signum, frame):
     raise CpuBound(''.join(traceback.format_stack(frame)[-5:]))
 
 
+def names_of(B):
+    return [c[0] for c in B.calls]
+
+
 def process(R, T, data, driver, cls, repro, path=None, qs=None):
     """one hostile input through one driver; all oracles"""
     kind = T.kind
@@ -226,7 +354,7 @@ def process(R, T, data, driver, cls, repro, path=None, qs=None):
                 input_b64=base64.b64encode((data if isinstance(data, bytes) else repr((path, qs)).encode())[:3000]).decode())
     signal.setitimer(signal.ITIMER_VIRTUAL, 20.0)
     try:
-        if driver == 'wsgi' or kind == 'httprpc':
+        if driver.startswith('wsgi') or kind == 'httprpc':
             if kind == 'httprpc':
                 env, inp = drive.make_environ('GET', path, qs, b'', None)
             else:
@@ -237,8 +365,16 @@ def process(R, T, data, driver, cls, repro, path=None, qs=None):
                 if repro.get('ctype'):
                     ctype = repro['ctype']
                 env, inp = drive.make_environ('POST', '/', '', data, ctype)
-            w = drive.call_wsgi(T.wsgi, env, inp)
+            if repro.get('content_length') is not None:
+                env['CONTENT_LENGTH'] = repro['content_length']
+            w = drive.call_wsgi(T.small() if driver == 'wsgi-small' else T.wsgi, env, inp)
             exc, stage, out, code = w.exc, w.exc_stage, w.body, w.code
+            if driver == 'wsgi-small' and isinstance(data, bytes) and len(data) > SMALL_LIMIT and exc is None:
+                R.count('over_limit_requests')
+                if names_of(B) or not (code == 413 or (T.outkind in ('soap11', 'soap12') and code == 500)):
+                    R.violation('a %d-byte request under max_content_length=%d answered %r (functions run: %r)' % (
+                        len(data), SMALL_LIMIT, w.status, names_of(B)), case, mech='over_limit_not_refused:%s' % kind)
+                    return
             bad_chunks = [c for c in w.chunks if not isinstance(c, bytes)]
         else:
             r = drive.drive_server(T.server, data)
@@ -581,9 +717,9 @@ def run(spec, R):
     nmut = 60 if tier == 'quick' else 600
     nrand = 60 if tier == 'quick' else 800
     prefix_done = 0
-    for uid in list(range(nuni)) + [9100]:
-        # (9100: the fixed three-level class tree with defaults, required attributes, bounded repeats)
-        ir = universe(spec['seed'], uid) if uid != 9100 else inheritance_universe()
+    for uid in list(range(nuni)) + [9100, 9200]:
+        # (9100: the fixed three-level class tree with defaults, required attributes, bounded repeats; 9200: every primitive kind)
+        ir = universe(spec['seed'], uid) if uid < 9000 else inheritance_universe() if uid == 9100 else all_kinds_universe()
         try:
             T = Target(ir, kind, validator, rng, spec.get('out'))
         except Exception as e:
@@ -611,6 +747,8 @@ def run(spec, R):
                 continue
             data, struct = vr
             # the valid request itself must be processed normally
+            if uid == 9200:
+                leaf_sweep(R, T, rng, data, struct, repro, tier, drivers)
             if kind == 'httprpc':
                 path, pairs = data
                 qs = refflat.query_string(pairs)
@@ -625,6 +763,12 @@ def run(spec, R):
                 continue
             for d in drivers:
                 process(R, T, data, d, 'valid', repro)
+            # the same request, and the same one padded past the limit, behind a transport with a small request-size limit
+            process(R, T, data, 'wsgi-small', 'valid', repro)
+            process(R, T, data + b' ' * (SMALL_LIMIT + 1), 'wsgi-small', 'padded_past_limit', repro)
+            # what a client can put into the Content-Length header
+            for cl in ('abc', '-1', '9' * 4400, '1e2', ' 12', '', str(len(data) + 50), str(max(len(data) - 3, 0)), '0'):
+                process(R, T, data, 'wsgi', 'content_length:' + cl[:6], dict(repro, content_length=cl))
             # EVERY prefix
             if prefix_done < nprefix_reqs:
                 prefix_done += 1
@@ -645,7 +789,7 @@ def run(spec, R):
                 muts = dict_mutants(rng, T.codec, struct, nmut // 3)
             muts += raw_mutants(rng, kind, T, struct, tier)
             for i, (cls, m) in enumerate(muts):
-                process(R, T, m, drivers[i % len(drivers)], cls, repro)
+                process(R, T, m, drivers[i % len(drivers)] if i % 7 else 'wsgi-small', cls, repro)
             if kind in ('soap11', 'soap12'):
                 for cls, m, ct in mime_mutants(rng, data, tier):
                     process(R, T, m, 'wsgi', cls, dict(repro, ctype=ct))
